@@ -92,6 +92,10 @@ def run_case(case, tier):
     elif case["kind"] == "cutout":
         recs = sources.random_small_structure(rng, 80, 900)
         mode = "cutout"
+        if rng.random() < 0.2:
+            from .. import multiconf
+            recs, _d = multiconf.build(rng, base=recs)
+            mode = "multi-conformation"
     else:
         recs, mode = subset_structure(rng)
     grid = random_grid(rng) if rng.random() < 0.7 else (0.0, 14.0, 0.1)
